@@ -19,7 +19,7 @@ RULE = ("Hypothesis-generated count-normalised rulesets (plus a separately count
         "1e-13}, every interval mid-point and 1-2^-53, and the selected structure / group must be the interval containing the "
         "draw (either neighbour within 1e-12 of a breakpoint) - the sampler is piecewise constant, so this pins every "
         "derivation's probability; the in-group choice is scripted over every index. End-to-end: HoneywordSession.run(limit=N) "
-        "must print exactly N words of the model's non-Markov language in both modes; random_walk twice (and as CLI "
+        "must print exactly N words (N up to 2500, also on Markov-heavy grammars) of the model's non-Markov language in both modes; random_walk twice (and as CLI "
         "subprocesses) must be identical. Non-trivial = >=2 base structures and a group of >=2 values; distinct = hash of model.")
 ASSUMPTIONS = ["per variable the probabilities times group sizes add up to 1 (trainer output); the base list may add up to less than 1",
                "for a sub-normalised base list 'its probability' is read as proportional to the listed value"]
